@@ -1051,3 +1051,70 @@ impl<'s> TomlKey<'s> {
         style_ok(self.encoding, self.decoded.spec_bytes(), false)
     }
 }
+
+//@ main
+// Fidelity battery: runs the EXTRACTED exec functions (compiled by `verus --compile`) on the
+// same deterministic battery as `verif_replay fidelity-v1` runs the real crate on.
+include!("@VERIF@/specs/shared/battery_v1.rs");
+
+fn v_token(s: &str, k: usize) -> Option<Vec<u8>> {
+    let b = TomlStringBuilder::new(s);
+    let t = match k {
+        0 => Some(b.as_default()),
+        1 => b.as_literal(),
+        2 => b.as_ml_literal(),
+        3 => b.as_basic_pretty(),
+        4 => b.as_ml_basic_pretty(),
+        5 => Some(b.as_basic()),
+        _ => Some(b.as_ml_basic()),
+    };
+    t.map(|t| {
+        let mut w = VWriter { out: Vec::new() };
+        write_toml_value(t.decoded, Some(t.encoding), t.newline, &mut w).unwrap();
+        w.out
+    })
+}
+
+fn k_token(s: &str, k: usize) -> Option<Vec<u8>> {
+    let b = TomlKeyBuilder::new(s);
+    let t = match k {
+        0 => Some(b.as_default()),
+        1 => b.as_unquoted(),
+        2 => b.as_literal(),
+        3 => b.as_basic_pretty(),
+        _ => Some(b.as_basic()),
+    };
+    t.map(|t| {
+        let mut w = VWriter { out: Vec::new() };
+        write_toml_value(t.decoded, t.encoding, false, &mut w).unwrap();
+        w.out
+    })
+}
+
+fn main() {
+    let max_len: usize = std::env::args().nth(1).and_then(|s| s.parse().ok()).unwrap_or(3);
+    let value_styles = ["default", "literal", "ml_literal", "basic_pretty", "ml_basic_pretty", "basic", "ml_basic"];
+    let key_styles = ["default", "unquoted", "literal", "basic_pretty", "basic"];
+    let battery = v1_battery(max_len);
+    let mut vh = [0xcbf29ce484222325u64; 7];
+    let mut vn = [0usize; 7];
+    let mut kh = [0xcbf29ce484222325u64; 5];
+    let mut kn = [0usize; 5];
+    for s in &battery {
+        for k in 0..7 {
+            match v_token(s, k) {
+                Some(t) => { vn[k] += 1; fnv1a(&mut vh[k], &t); }
+                None => fnv1a(&mut vh[k], b"<none>"),
+            }
+        }
+        for k in 0..5 {
+            match k_token(s, k) {
+                Some(t) => { kn[k] += 1; fnv1a(&mut kh[k], &t); }
+                None => fnv1a(&mut kh[k], b"<none>"),
+            }
+        }
+    }
+    println!("battery {}", battery.len());
+    for k in 0..7 { println!("value {} offered {} digest {:016x}", value_styles[k], vn[k], vh[k]); }
+    for k in 0..5 { println!("key {} offered {} digest {:016x}", key_styles[k], kn[k], kh[k]); }
+}
